@@ -859,7 +859,7 @@ class SMPose(SMUserList):
 
         """
 
-        assert type(n) is int, 'exponent must be an int'
+        assert isinstance(n, (int, np.integer)), 'exponent must be an int'
         return self.__class__([np.linalg.matrix_power(x, n) for x in self.data], check=False)
     #----------------------- arithmetic
 
